@@ -2,7 +2,7 @@
    The AES block function and its inverse are parameters (crypto/aes); CBC, the padding rule, the IV placement
    and the checks of Decrypt are the Coq definitions.  block_hyps = |E k b| = 16, D k (E k b) = b on 16-octet
    blocks, |D k b| = 16 (monitored on every oracle answer by the harness). *)
-From IKE Require Import Lib.Base Prim.Cbc Impl.Security Thm.CbcThm.
+From IKE Require Import Lib.Base Prim.Cbc Impl.Security Thm.CbcThm Thm.C10Hist.
 
 (* for every key, every plaintext, every random source: if a ciphertext is produced then
    - the source was consumed as (pad octets | 16 IV octets) and the IV of the ciphertext is exactly those 16 octets
@@ -47,3 +47,43 @@ Theorem C10_key_size :
   forall e key, (exists k, new_crypto e key = Ok k) <-> length key = encr_keylen e.
 Proof. exact new_crypto_iff. Qed.
 Print Assumptions C10_key_size.
+
+(* all call sequences on one cipher object: for every list of plaintexts and every random source, if every call of the
+   history returns a ciphertext then the source was consumed in successive disjoint windows (pad octets | IV), one per
+   call, the i-th ciphertext begins with the IV of the i-th window and has the size the size law gives, and every
+   ciphertext of the history decrypts to its own plaintext (no IV kept or repeated, no result invalidated by a later call) *)
+Theorem C10_call_sequences :
+  forall aes_enc aes_dec, block_hyps aes_enc aes_dec ->
+  forall key ps s cts s',
+    enc_history aes_enc key ps s = (map (@Ok bytes) cts, s') ->
+    exists wins,
+      length wins = length ps /\
+      s = map (@Some byte) (concat wins) ++ s' /\
+      Forall2 (fun pc win => call_ok aes_dec key (fst pc) (snd pc) win) (combine ps cts) wins /\
+      length cts = length ps.
+Proof. exact enc_history_spec. Qed.
+Print Assumptions C10_call_sequences.
+
+Theorem C10_history_ciphertexts_stay_valid :
+  forall aes_enc aes_dec, block_hyps aes_enc aes_dec ->
+  forall key ps s cts s',
+    enc_history aes_enc key ps s = (map (@Ok bytes) cts, s') ->
+    Forall (fun pc => aes_decrypt aes_dec key (snd pc) = Ok (fst pc)) (combine ps cts).
+Proof. exact every_ciphertext_of_a_history_still_decrypts. Qed.
+Print Assumptions C10_history_ciphertexts_stay_valid.
+
+(* the premises are satisfiable: a block function that meets block_hyps, and a history of three calls that all succeed *)
+Definition toy_block (k b : bytes) : bytes := firstn 16 (b ++ repeat (n2b 0) 16).
+Example toy_block_meets_block_hyps : block_hyps toy_block toy_block.
+Proof.
+  unfold block_hyps, toy_block. repeat split; intros.
+  - rewrite firstn_length, app_length, repeat_length. lia.
+  - rewrite (firstn_app_exact b _ 16 H). exact (firstn_app_exact b _ 16 H).
+  - rewrite firstn_length, app_length, repeat_length. lia.
+Qed.
+Definition ex_history := enc_history toy_block (repeat (n2b 7) 16) [[n2b 1; n2b 2; n2b 3]; []; repeat (n2b 9) 16]
+                           (map (@Some byte) (map n2b (map N.of_nat (seq 0 100)))).
+Definition ex_cts : list bytes := Eval vm_compute in map (fun r => match r with Ok c => c | _ => [] end) (fst ex_history).
+Example a_history_of_three_calls_succeeds :
+  ex_history = (map (@Ok bytes) ex_cts, snd ex_history) /\ length ex_cts = 3%nat /\ length (snd ex_history) = 7%nat.
+Proof. vm_compute. repeat split; reflexivity. Qed.
